@@ -14,6 +14,8 @@ var laterPaths = []string{
 	"$[*] ? (@ > 1)", "$.* ? (@ > 1)", "$.keyvalue() ? (@.value > 1)", "$.keyvalue().value ? (@ > 1)", "$[*].keyvalue() ? (@.value > 1)",
 	"$.** ? (@ > 1)", "$[0, 1] ? (@ > 1)", "$[0 to 1].a", "$[*].a", "$.*.a", "$.**.a", "$[*] ? (exists(@.a))", "$.keyvalue().key ? (@ == \"b\")",
 	"$[*].a ? (@ > 1)", "$.a[*] ? (@ > 1)", "$[*] ? (@.a > 1).a", "-$[*] ? (@ < -1)", "$[*].double() ? (@ > 1)", "$[*][*] ? (@ > 1)",
+	// a signed sequence followed by a step that rejects the first item
+	"(-$[*]) ? (@ < -1)", "(+$[*]) ? (@ > 1)", "(-$[*]).abs() ? (@ > 1)", "(-$.*) ? (@ < -1)",
 	// a step after .** that fails for some items and not for later ones
 	"$.**{2}.boolean()", "$.**.integer()", "$.**{1 to 2}.keyvalue()",
 }
